@@ -24,6 +24,7 @@ import (
 	"regexp"
 	"runtime"
 	"sort"
+	"strconv"
 	"strings"
 	"sync"
 	"syscall"
@@ -343,6 +344,9 @@ func c19Child(args []string) {
 		if rr.Slow == "" && round%4 == 0 {
 			rr.Slow = c19SlowManifest(filepath.Join(work, fmt.Sprintf("r%d-slowmpd", round)))
 		}
+		if rr.Slow == "" && round%4 == 1 {
+			rr.Slow = c19ResentInit(filepath.Join(work, fmt.Sprintf("r%d-reinit", round)))
+		}
 		if rr.Slow == "" {
 			rr.Slow = c19SlowBody(r, filepath.Join(work, fmt.Sprintf("r%d-slow2", round)), true)
 		}
@@ -564,6 +568,67 @@ func (g *gatedBody) Read(p []byte) (int, error) {
 // chunked transfer opens the request before the segment exists).  The channel is a renumbered one (incoming numbers and
 // times do not follow time / duration), so its start changes how uploads are numbered: in either sequential order of
 // "audio segment 1" and "video segment 1" the audio upload is accepted and stored.
+// c19ResentInit: a sender that restarts sends the init segment of its tracks again (before and after the channel has
+// started): every track is registered once — Representation ids are unique in manifest.mpd and in the timeline MPD.
+func c19ResentInit(dir string) string {
+	_ = os.MkdirAll(dir, 0o755)
+	defer os.RemoveAll(dir)
+	ctx, cancel := context.WithCancel(context.Background())
+	defer cancel()
+	h, err := recv.VerifNewRouter(ctx, dir, 30, 0, nil, false)
+	if err != nil {
+		return ""
+	}
+	vInit, e1 := readAsset("testpic_2s/V300/init.mp4")
+	aInit, e2 := readAsset("testpic_2s/A48/init.mp4")
+	if e1 != nil || e2 != nil {
+		return ""
+	}
+	put := func(path string, body []byte) string {
+		if code, p := c19Put(h, c19Upload{path, body}); code >= 300 || p != "" {
+			return fmt.Sprintf("PUT %s answered %d %s", path, code, p)
+		}
+		return ""
+	}
+	seq := []string{"vi", "vi", "ai", "1", "2", "ai", "3", "vi", "4", "5"}
+	for _, st := range seq {
+		var w string
+		switch st {
+		case "vi":
+			w = put("/upload/ri/v0/init.cmfv", vInit)
+		case "ai":
+			w = put("/upload/ri/a0/init.cmfa", aInit)
+		default:
+			k, _ := strconv.Atoi(st)
+			vb, _ := readAsset(fmt.Sprintf("testpic_2s/V300/%d.m4s", (k-1)%4+1))
+			ab, _ := readAsset(fmt.Sprintf("testpic_2s/A48/%d.m4s", (k-1)%4+1))
+			if k > 4 {
+				break // (the bundled segments carry numbers 1..4)
+			}
+			if w = put(fmt.Sprintf("/upload/ri/v0/%d.cmfv", k), vb); w == "" {
+				w = put(fmt.Sprintf("/upload/ri/a0/%d.cmfa", k), ab)
+			}
+			time.Sleep(25 * time.Millisecond)
+		}
+		if w != "" {
+			return "init segments sent again by a restarted sender: " + w
+		}
+	}
+	time.Sleep(80 * time.Millisecond)
+	for _, f := range []string{"manifest.mpd", "manifest_timeline_nr.mpd"} {
+		b, err := os.ReadFile(filepath.Join(dir, "ri", f))
+		if err != nil {
+			continue
+		}
+		for _, id := range []string{"v0", "a0"} {
+			if n := bytes.Count(b, []byte(`<Representation id="`+id+`"`)); n > 1 {
+				return fmt.Sprintf("%s lists Representation %s %d times after its init segment was sent again (a restarted sender): the track is registered more than once", f, id, n)
+			}
+		}
+	}
+	return ""
+}
+
 // c19SlowManifest: a track registers (first init upload) while the channel goroutine is writing manifest.mpd at the
 // start of the channel — the disk is slow: manifest.mpd is a FIFO whose reader shows up late.  In every sequential order
 // of these uploads the track is in the MPDs; it must be so here, too.
